@@ -26,6 +26,7 @@ private:
   int64 mdata[3]; // sizeof(pthread_mutex_t)
   #endif
   bool signaled;
+  uint generation; // incremented by set(), so that set() releases every current waiter even if reset() follows at once
 #endif
 
   Signal(const Signal&);
